@@ -61,7 +61,19 @@ def _rescale_elements(rng, obj, factors):
     return new
 
 
-def build_pool(rng, dim, with_collections=True, with_polytopes=True, with_quadrics=True, with_transforms=True, cshape=(3,), hostile_scales=False):
+def build_pool(rng, dim, **kw):
+    """A pool of objects in general position; random draws that happen to be degenerate (coincident defining points) are re-drawn."""
+    from geometer.exceptions import GeometryException
+
+    for _ in range(20):
+        try:
+            return _build_pool(rng, dim, **kw)
+        except GeometryException:
+            continue
+    raise RuntimeError("no pool in general position")
+
+
+def _build_pool(rng, dim, with_collections=True, with_polytopes=True, with_quadrics=True, with_transforms=True, cshape=(3,), hostile_scales=False):
     """A pool of finite, real, mostly integer-coordinate objects in general position of the given dimension (2 or 3)."""
     import geometer as g
     from fractions import Fraction
